@@ -8,6 +8,8 @@
 //   verify   <parent> <base> <shard> <keyhex>...           lists the tree, reads every key, then puts
 //            and gets one more key.
 //
+// Config "<shard>,q<abc>[,x]": ",x" = the staging directory <base>/.temp is a symbolic link into ANOTHER
+//         file system (renames out of it are refused by the kernel with EXDEV).
 // Record: id, "<shard>,q<ab>", pre ("keyhex:contenthex" ...), op (put|vec|abort), keyhex,
 //         chunks (hex,hex,..), fault (none | kill@j | err:<errno>@j), observation
 // observation: <result> "|" <trace> "|" <verify>
@@ -172,7 +174,7 @@ var (
 	reUnfin  = regexp.MustCompile(`^(\d+)\s+(\w+)\((.*)$`)
 	reStr    = regexp.MustCompile(`"((?:[^"\\]|\\.)*)"`)
 	errNames = map[string]string{"ENOENT": "enoent", "ENOTDIR": "enotdir", "EISDIR": "eisdir", "EEXIST": "eexist",
-		"ENOTEMPTY": "enotempty", "ENAMETOOLONG": "enametoolong", "EINVAL": "einval", "EIO": "eio", "ENOSPC": "enospc", "EACCES": "eacces"}
+		"ENOTEMPTY": "enotempty", "ENAMETOOLONG": "enametoolong", "EINVAL": "einval", "EIO": "eio", "ENOSPC": "enospc", "EACCES": "eacces", "EXDEV": "exdev"}
 )
 
 func unescape(s string) string {
@@ -302,6 +304,9 @@ func parseTrace(path, base string) (evs []sysEv, before []string, complete bool)
 			} else {
 				ev.text = "unlink:" + relPath(base, arg(0)) + ":" + r
 			}
+		default:
+			// anything else the operation does to the file system is not in the model: show it
+			ev.text = "sys:" + name + ":" + r
 		}
 		evs = append(evs, ev)
 	}
@@ -318,9 +323,10 @@ func traceText(evs []sysEv) string {
 	return strings.Join(out, ";")
 }
 
-const traceSet = "trace=openat,write,close,renameat,renameat2,mkdirat,unlinkat,newfstatat"
+const traceSet = "trace=openat,write,close,renameat,renameat2,mkdirat,unlinkat,newfstatat,copy_file_range,sendfile,splice,linkat,symlinkat,ftruncate,truncate,pwrite64,writev"
 
 type scenario struct {
+	xdev     bool // staging directory on another file system
 	noFaults bool // only the fault-free run
 	shard    string
 	pre    [][2]string // key, content (stored by the harness itself before the traced operation)
@@ -359,6 +365,10 @@ func runOne(self string, sc *scenario, inject string) (string, []sysEv, []string
 			panic(err)
 		}
 	}
+	if sc.xdev {
+		shm := crossStaging(base)
+		defer os.RemoveAll(shm)
+	}
 	tr := filepath.Join(parent, "strace.out")
 	args := []string{"-f", "-qq", "-e", traceSet, "-e", "signal=none", "-o", tr}
 	if inject != "" {
@@ -389,6 +399,32 @@ func runOne(self string, sc *scenario, inject string) (string, []sysEv, []string
 	vargs := append([]string{"verify", parent, base, sc.shard}, keys...)
 	vout, _ := exec.Command(self, vargs...).Output()
 	return result + "|" + traceText(evs) + "|" + strings.TrimSpace(string(vout)), evs, before
+}
+
+var secondFs string
+
+// crossStaging replaces the (empty) staging directory by a symbolic link to a fresh directory on
+// another file system and returns that directory.
+func crossStaging(base string) string {
+	shm, err := os.MkdirTemp(secondFs, "c18x")
+	if err != nil {
+		panic(err)
+	}
+	if err := os.Remove(filepath.Join(base, ".temp")); err != nil {
+		panic(err)
+	}
+	if err := os.Symlink(shm, filepath.Join(base, ".temp")); err != nil {
+		panic(err)
+	}
+	return shm
+}
+
+func (sc *scenario) config(quirks string) string {
+	c := sc.shard + ",q" + quirks
+	if sc.xdev {
+		c += ",x"
+	}
+	return c
 }
 
 // whenFor: the invocation count (1-based, main thread) of the j-th in-scope system call
@@ -472,6 +508,24 @@ func scenarios(tier string, n int) []*scenario {
 	}
 	if n > 0 && n < len(out) {
 		out = out[:n]
+	}
+	// the staging directory on another file system: every fault again
+	if secondFs != "" {
+		key := "abcdefgh"
+		for si, sh := range shards {
+			if tier != "thorough" && si > 0 {
+				break
+			}
+			out = append(out,
+				&scenario{xdev: true, shard: sh, op: "put", key: key, chunks: []string{content}},
+				&scenario{xdev: true, shard: sh, pre: [][2]string{{"XXXdefgh", "neighbour"}}, op: "put", key: key, chunks: []string{big}},
+				&scenario{xdev: true, shard: sh, pre: [][2]string{{key, content}}, op: "vec", key: key, chunks: []string{content[:5], content[5:]}})
+			if tier == "thorough" {
+				out = append(out,
+					&scenario{xdev: true, shard: sh, op: "abort", key: key, chunks: []string{content}},
+					&scenario{xdev: true, shard: sh, pre: [][2]string{{"zzzzzzzz", "other"}}, op: "vec", key: key, chunks: []string{big, content}})
+			}
+		}
 	}
 	// Put under a context that is cancelled while the put is under way (fault-free runs only)
 	for _, sh := range shards {
@@ -586,6 +640,14 @@ func runConc(out *lib.Out, id, config string, writers, nkeys, rounds int) {
 	if err != nil {
 		panic(err)
 	}
+	xdev := strings.HasSuffix(config, ",x")
+	if xdev {
+		if secondFs == "" {
+			return
+		}
+		shm := crossStaging(base)
+		defer os.RemoveAll(shm)
+	}
 	contentOf := func(k int) []byte {
 		return []byte(strings.Repeat(fmt.Sprintf("block-%04d|", k), 4000+k)) // ~44 KB: several write() calls would be needed to tear it
 	}
@@ -641,7 +703,8 @@ func runConc(out *lib.Out, id, config string, writers, nkeys, rounds int) {
 				if err != nil {
 					// two first writers of one shard directory: the loser's mkdir reports EEXIST and its
 					// put fails (observed; the key is then simply not stored by that writer)
-					if c := lib.StoreErrClass(err); c != "eexist" {
+					// (with the staging directory on another file system every put is refused with EXDEV)
+					if c := lib.StoreErrClass(err); c != "eexist" && !(xdev && c == "exdev") {
 						report("writer_error:" + c)
 					}
 				}
@@ -681,9 +744,13 @@ func main() {
 	if err != nil {
 		panic(err)
 	}
+	if wd, err := os.Getwd(); err == nil {
+		os.MkdirAll(filepath.Join(wd, "build"), 0777)
+		secondFs = lib.SecondFs(filepath.Join(wd, "build"))
+	}
 	quirks := lib.ProbeQuirks() + probeMkdirExist(self)
 	emit := func(j *job) {
-		out.Case(j.id, j.sc.shard+",q"+quirks, j.sc.preText(), j.sc.op, lib.Hex(j.sc.key), j.sc.chunkHex(), j.fault, j.obs)
+		out.Case(j.id, j.sc.config(quirks), j.sc.preText(), j.sc.op, lib.Hex(j.sc.key), j.sc.chunkHex(), j.fault, j.obs)
 	}
 	if fl.Replay != "" {
 		for _, line := range lib.ReadLines(fl.Replay) {
@@ -702,7 +769,10 @@ func main() {
 				runConc(out, f[0], f[1], w, k, r)
 				continue
 			}
-			sc := &scenario{shard: strings.Split(f[1], ",")[0], op: f[3], key: lib.UnHex(f[4])}
+			sc := &scenario{shard: strings.Split(f[1], ",")[0], op: f[3], key: lib.UnHex(f[4]), xdev: strings.HasSuffix(f[1], ",x")}
+			if sc.xdev && secondFs == "" {
+				continue
+			}
 			for _, p := range strings.Fields(f[2]) {
 				kv := strings.SplitN(p, ":", 2)
 				sc.pre = append(sc.pre, [2]string{lib.UnHex(kv[0]), lib.UnHex(kv[1])})
@@ -820,6 +890,12 @@ func main() {
 	for i := 0; i < nconc; i++ {
 		sh := []string{"r12", "r122", "r133"}[i%3]
 		runConc(out, fmt.Sprintf("conc%d", i), sh+",q"+quirks, 6, 5+i%3, rounds)
+	}
+	if secondFs != "" {
+		for i := 0; i < nconc; i++ {
+			sh := []string{"r12", "r122", "r133"}[i%3]
+			runConc(out, fmt.Sprintf("concx%d", i), sh+",q"+quirks+",x", 6, 3, rounds)
+		}
 	}
 }
 
